@@ -130,7 +130,8 @@ Choose2 ==
     /\ UNCHANGED <<st, hist, blamed, usedK, onlySpec>>
     /\ \/ x.fam = "der" /\ mode' = "der" /\ x' \in [r : {x.r}, s : IntDomain, ht : HashTypes]
        \/ x.fam = "pub" /\ mode' = "pub"       \* public-key octet strings of the toy curve: prefix, X, optional Y (one octet each)
-            /\ x' \in [enc : {<<pf, x.i>> : pf \in 0..7} \cup {<<pf, x.i, yy>> : pf \in {2, 3, 4, 6, 7}, yy \in 0..(P + 5)}
+            /\ x' \in [enc : {<<pf, x.i>> : pf \in 0..7} \cup {<<4, x.i, yy>> : yy \in 0..(P + 5)}
+                             \cup {<<pf, x.i, yy>> : pf \in {2, 3, 6, 7}, yy \in {0, 1, x.i, P - 1, P, P + 1}}
                              \cup {<<4>>, <<>>, <<2, x.i, 0, 0>>}]
        \/ x.fam = "verify" /\ mode' = "verify"
             /\ x' \in [c : {"raw64", "der"}, d : {x.d}, z : {x.z}, r : {x.i}, s : 0..(Q + 1), onCurve : {TRUE}, ht : {1}]
